@@ -48,6 +48,7 @@ type PtrV struct {
 	RootT types.Type // KField: type of the root object; KLocal: cell type; KGlobal: variable type
 	GKey  string     // KGlobal: heap key of the package-level variable
 	AIdx  *Term      // optional: index into an array located at Path
+	NonNilGlobal bool
 }
 
 type MapV struct {
